@@ -790,6 +790,11 @@ fn extract_next_batch<'a>(
         if total_size + next_block_size > max_batch_size {
             break;
         }
+        // The encoding overhead of a block is not counted above, so a batch of very many tiny
+        // blocks would exceed `MAX_MESSAGE_SIZE` and be dropped as a whole.
+        if block_count == config::MAX_BATCH_BLOCKS {
+            break;
+        }
         total_size += next_block_size;
         block_count += 1;
     }
